@@ -194,8 +194,11 @@ func c08Body(r *Run) {
 			h.returned[d] = outs
 			var sn []*message.Message
 			for _, o := range outs {
+				// every output says which handler returned it (also the passed-on and the borrowed objects): an equal copy
+				// can then be told apart from another handler's output with the same UUID
+				o.Metadata.Set("from", h.name)
 				sn = append(sn, o.Copy())
-				owner[o.UUID] = h
+				owner[o.UUID+"|"+h.name] = h
 				ownerPtr[o] = h
 			}
 			h.snaps[d] = sn
@@ -214,7 +217,8 @@ func c08Body(r *Run) {
 					return func(m *message.Message) ([]*message.Message, error) {
 						o, err := next(m)
 						x := message.NewMessage(m.UUID+">mw", []byte("mw"))
-						owner[x.UUID] = h
+						x.Metadata.Set("from", h.name)
+						owner[x.UUID+"|"+h.name] = h
 						ownerPtr[x] = h
 						return append(o, x), err
 					}
@@ -228,7 +232,8 @@ func c08Body(r *Run) {
 						o, err := next(m)
 						if d := h.sub.ByMsg[m]; d != nil && err == nil {
 							x := message.NewMessage(m.UUID+">"+h.name+">mw", []byte("mw"))
-							owner[x.UUID] = h
+							x.Metadata.Set("from", h.name)
+							owner[x.UUID+"|"+h.name] = h
 							ownerPtr[x] = h
 							h.returned[d] = append(append([]*message.Message(nil), h.returned[d]...), x)
 							h.snaps[d] = append(append([]*message.Message(nil), h.snaps[d]...), x.Copy())
@@ -247,7 +252,7 @@ func c08Body(r *Run) {
 			for _, m := range c.Msgs {
 				h := ownerPtr[m]
 				if h == nil {
-					h = owner[m.UUID]
+					h = owner[m.UUID+"|"+m.Metadata.Get("from")]
 				}
 				if h == nil {
 					r.Fail("C08.R2", "a publisher received a message no handler returned", "%s got %s", p.Name, m.UUID)
@@ -329,7 +334,7 @@ func c08Body(r *Run) {
 						// not the object itself: an equal copy then (told apart by UUID, and by topic where handlers share a publisher)
 						for ci, c := range h.pub.Calls {
 							for mi, m := range c.Msgs {
-								if m.UUID == o.UUID && ownerPtr[m] == nil && c.Topic == h.pubTopic {
+								if m.UUID == o.UUID && ownerPtr[m] == nil && c.Topic == h.pubTopic && m.Metadata.Get("from") == h.name {
 									at = append(at, pos{ci, mi})
 								}
 							}
